@@ -323,7 +323,7 @@ def run_shard(spec, seed, col, tier):
             col.fail(sig, explicit, detail)
     strat = st.fixed_dictionaries({
         'cfg': st.sampled_from([{'connect_retry': c, 'hold': h, 'idle_hold': i, 'md5': m}
-                                for c in (1, 5, 29, 30, 31, 60) for h, i in ((180, 30), (9, 5), (180, 0), (0, 30))
+                                for c in (1, 5, 29, 30, 31, 60) for h, i in ((180, 30), (9, 5), (180, 0), (0, 30), (65536, 30))
                                 for m in (None, None, None, 'secret', 'k' * 81)]),
         'late_boot': st.sampled_from([False, False, False, True]),
         'choices': st.lists(st.integers(0, 999), min_size=spec['steps'] // 2, max_size=spec['steps'])})
